@@ -1,11 +1,11 @@
 (* C07 — after any edit history the solver equals a freshly built one.
    The state of the solver AND of every structure it ever held is, in every reachable state, a function of
-   the list of present structures and the set of links (representation invariant Rep, proved to be preserved
-   by every operation: C07_tables_consistent); the matrix of a circuit does not depend on how it was declared
-   (C07_fresh_equivalence).  Not proved: that the free-pin list is exactly the set of unconnected pins (only
-   "free pins belong to present structures" is part of Rep; exactness is tied by the correspondence). *)
+   the list of present structures and the set of links (representation invariant Rep, preserved by every
+   operation: C07_tables_consistent); the pins reported free are exactly, each once, the unconnected pins of the
+   present structures (C07_free_pins_exact); the matrix of a circuit does not depend on how it was declared
+   (C07_fresh_equivalence). *)
 From Coq Require Import List Arith Bool.
-From Lekkersim Require Import Field Matrix Base Network Solve SolveProofs SolveComplete Wiring WiringProofs WiringInv WiringRep WiringRep2.
+From Lekkersim Require Import Field Matrix Base Network Solve SolveProofs SolveComplete Wiring WiringProofs WiringInv WiringRep WiringRep2 WiringFree.
 Import ListNotations.
 
 (* solving is a query on the wiring state *)
@@ -34,6 +34,16 @@ Theorem C07_tables_consistent ops z w :
   (linked s z w -> nmem (fst z) (w_structs s) = true /\ nmem (fst w) (s_to (getst s (fst z))) = true).
 Proof. exact (tables_consistent ops z w). Qed.
 
+(* after ANY history the pins the solver reports as free (and auto-raises) are exactly, each once, the pins of the
+   present structures that take part in no connection: pins freed by a cut are free again, pins that faced a removed
+   structure are gone, a structure that was cut and added again brings its pins back *)
+Theorem C07_free_pins_exact ops p :
+  let s := run w_empty ops in
+  NoDup (w_free s) /\
+  (In p (w_free s) <->
+   nmem (fst p) (w_structs s) = true /\ In p (s_pins (getst s (fst p))) /\ ~ exists w, linked s p w).
+Proof. exact (free_pins_exact ops p). Qed.
+
 Theorem C07_invariant_everywhere ops : Rep (run w_empty ops).
 Proof. exact (Rep_reachable ops). Qed.
 
@@ -56,6 +66,7 @@ Print Assumptions C07_cut_absent_rejected.
 Print Assumptions C07_fresh_equivalence.
 Print Assumptions C07_tables_consistent.
 Print Assumptions C07_invariant_everywhere.
+Print Assumptions C07_free_pins_exact.
 
 Example C07_history_runs :
   w_free (run w_empty [Add 0 2; Add 1 2; Connect (0,1) (1,0); Cut 1; Add 1 2; Connect (1,1) (0,1)])
